@@ -1,0 +1,43 @@
+//go:build verif
+
+package main
+
+// Contracts for govc (contract-based deductive verification, see /verif/DESIGN.md).
+// This file is compiled only with -tags verif and contains no executable code.
+
+// ghostExec records whether the command tree reported an error (defined by the assumed contract of cobra's Execute).
+type ghostExec struct {
+	Failed bool
+}
+
+//@ func cobra.Command.Execute returns (err)
+//@   trusted
+//@   modifies ghostExec
+//@   ghostensures ghost(ghostExec, c).Failed == (err != nil)
+
+// a failing command is signalled by a non-zero exit status (C09)
+//@ func run returns (code)
+//@   modifies ghostExec
+//@   ensures (code != 0) == ghost(ghostExec, rootCmd).Failed
+
+// os.Exit does not return; the status it was given is recorded
+type ghostExit struct {
+	Code int
+}
+
+//@ func os.Exit
+//@   trusted
+//@   modifies ghostExit
+//@   ensures false
+
+// main may return normally - which is exit status 0 - only when nothing failed
+//@ func main
+//@   mayexit
+//@   modifies ghostExec, ghostExit
+//@   ensures !ghost(ghostExec, rootCmd).Failed
+
+// an unknown modifier command is reported as not found, never as found with a nil modifier (C09)
+//@ func init$writeCmdConv.RunE$getModifier returns (m, ok)
+//@   allocs input.ChordMetaTextMotifier
+//@   ensures ok == (c == "cmt")
+//@   ensures ok ==> m != nil
